@@ -344,7 +344,9 @@ class OperandNode(ASTNode):
             value = self.value
             if value.startswith('"') and value.endswith('"'):
                 value = value[1:-1]
+            value = value.replace('\\', '\\\\')
             value = value.replace('""', r'\"')
+            value = value.replace('\n', r'\n').replace('\r', r'\r')
             return f'"{value}"'
 
         else:
